@@ -119,6 +119,17 @@ fn main() {
         }),
     );
 
+    if beh.get("detach_output").and_then(|x| x.as_bool()).unwrap_or(false) {
+        // like `exec >/dev/null 2>&1`: the pipes to monorail end here, the process goes on
+        unsafe {
+            let fd = libc::open(b"/dev/null\0".as_ptr() as *const libc::c_char, libc::O_WRONLY);
+            if fd >= 0 {
+                libc::dup2(fd, 1);
+                libc::dup2(fd, 2);
+                libc::close(fd);
+            }
+        }
+    }
     if let Some(n) = beh.get("pre_out_bytes").and_then(|x| x.as_u64()).filter(|n| *n > 0) {
         // chatty start: lines of 100 bytes until n bytes are out (blocks if nobody reads the pipe)
         use std::io::Write;
